@@ -72,6 +72,14 @@ add("C11", "model_checking", "Params.tla transcribes the parameter pipeline (ren
     "and TLC judges what every consumer saw", "trusted: TLC; probe children; the retry is performed in-process the way cmd/retry.go does it; value fidelity on a class alphabet only (DESIGN.md section 6)",
     "TLA+ transcription of the parameter pipeline (TLC) validated against the real parser + real start/retry runs with probes judged by TLC", "params", "5/C11")
 
+LIFE_NOTE = "trusted: the ptrace supervisor, TLC, the real client used for the queries; one 2-step DAG; wall-clock clauses are not claimed"
+add("C08", "fault_enumeration", "AgentLife.tla models the start-up / shutdown order of agent.Run with a crash anywhere and TLC checks 'a run cut short is reported neither running nor succeeded' and 'the latest-status query never fails'; "
+    "the real binary is SIGKILLed at every relevant system call of start-up, execution and shutdown (quick: every 3rd), then the real client is asked for the latest status and the DAG is started again with the real binary; TLC judges every record",
+    LIFE_NOTE, "TLA+ life-cycle model (TLC) + ptrace kill-point enumeration on the real binary judged by TLC", "agentlife", "5/C08")
+add("C16", "model_checking", "AgentLife.tla with two starters: TLC proves mutual exclusion and 'a refused start records nothing' for behaviours without the probe/bind window race (recorded as a history flag) ; "
+    "the first `start` of the real binary is held at its k-th system call while a second start of the same file runs to completion, for every call in the probe..bind window and a sample elsewhere; TLC judges who executed, what was recorded and whether the first run was disturbed",
+    LIFE_NOTE, "TLA+ life-cycle model with two starters (TLC) + ptrace-held placements of a second start on the real binary judged by TLC", "agentlife", "5/C16")
+
 ALL = ["C%02d" % i for i in range(1, 21)]
 for p in ALL:
     if p not in CHECKS:
@@ -110,6 +118,8 @@ def main():
              "kind_free_text": "real steps with real child processes under the real scheduler; byte-exact output comparison; records judged by TLC"},
             {"name": "params", "path": "harness/rig/params.go + spec/Params.tla + spec/ParamsObserve.tla", "serves_properties": ["C11"],
              "kind_free_text": "tokenizer sweep through the real parser; real start + retry runs with probe steps; records judged by TLC"},
+            {"name": "agentlife", "path": "harness/rig/agentlife.go + harness/rig/sup.go + spec/AgentLife.tla + spec/AgentLifeObserve.tla", "serves_properties": ["C08", "C16"],
+             "kind_free_text": "the real blackdagger binary under the ptrace supervisor: kill at the k-th system call; hold at the k-th call while a second start runs"},
             {"name": "admit", "path": "harness/rig/admit.go + spec/Admission.tla + spec/AdmissionObserve.tla", "serves_properties": ["C14"],
              "kind_free_text": "graph enumerator around scheduler.NewExecutionGraph / agent.Run; records judged by TLC"},
         ],
